@@ -19,6 +19,7 @@ def sh(cmd, **kw):
 def main():
     args = sys.argv[1:]
     allp = "--all" in args
+    record = "--norecord" not in args
     ids = [a for a in args if not a.startswith("--")] or sorted(os.listdir(os.path.join(ROOT, "seeded")))
     for sid in ids:
         d = os.path.join(ROOT, "seeded", sid)
@@ -58,8 +59,9 @@ def main():
                 print(sid, prop, "detected" if r.returncode else "silent", "| input:" if checks[prop]["failing_input_found"] else "| no-input", (oracle or "")[:90], flush=True)
         finally:
             sh("git -C /repo checkout -- .")
-        meta["checks"] = checks
-        json.dump(meta, open(mp, "w"), indent=1)
+        if record:
+            meta["checks"] = checks
+            json.dump(meta, open(mp, "w"), indent=1)
     sh("./build/extract /repo lean/Rtcp/Gen", cwd=ROOT)
 
 
